@@ -30,6 +30,10 @@ def body(run):
         drv = V.go_build(PID, "drv", tags=tags)
         lines, blocks, wall = W.run_codec(PID, drv, "prefix-" + label, ["-mode", "blocks", "-prefix", "-depth", "3" if T else "2", "-per", "3" if T else "2",
                                                                   "-revs", "54460,54453,51902" if T else "54460,51902", "-seed", str(run.seed)])
+        # boundary blocks (dictionaries around the LowCardinality key-width boundaries, strings around the varint boundaries)
+        l2, b2, w2 = W.run_codec(PID, drv, "prefix-special-" + label, ["-mode", "special", "-prefix", "-revs", "54460", "-seed", str(run.seed)])
+        lines += l2
+        wall += w2
         plines = [l for l in lines if '"ev":"Prefix"' in l]
         for l in plines:
             e = json.loads(l)
